@@ -11,6 +11,7 @@ from .common import Ctx, callee_names, fkey
 PERS = "aiomysensors.persistence.Persistence"
 OPENERS = ("aiofiles.threadpool.open", "builtins.open", "io.open")
 REMOVERS = ("os.remove", "os.unlink", "aiofiles.os.remove", "aiofiles.os.unlink", "pathlib.Path.unlink", "os.truncate", "shutil.rmtree")
+RESTATERS = ("os.chmod", "os.chown", "os.lchmod", "pathlib.Path.chmod", "shutil.chown")  # change who may write the live file
 INDIRECT = ("run_in_executor", "to_thread", "partial", "wrap", "submit")  # callers that take a callable and its arguments
 REPLACERS = ("os.replace", "os.rename", "aiofiles.os.replace", "aiofiles.os.rename", "shutil.move", "pathlib.Path.replace", "pathlib.Path.rename")
 
@@ -114,12 +115,31 @@ def _callable_and_args(ctx: Ctx, f, node: ast.Call, wanted: tuple):
             cand = next((w for w in wanted if w == full or w.rsplit(".", 1)[-1] == full.rsplit(".", 1)[-1] and full.split(".")[0] in ("os", "posix", "nt", "shutil", "aiofiles")), None)
             if cand is not None:
                 return cand, list(node.args[i + 1 :])
+        # ... or a repository function that does it to the path it is handed (`run_in_executor(ex, _make_writable, self.path)`)
+        for i, a in enumerate(node.args):
+            if not isinstance(a, (ast.Name, ast.Attribute)):
+                continue
+            d = ctx.prog.resolve_expr(f.module, a)
+            if d is None or d.kind != "func":
+                continue
+            h = d.obj
+            hparams = [p_ for p_ in h.positional_params if p_ not in ("self", "cls")]
+            for c in ctx.own_nodes(h):
+                if not isinstance(c, ast.Call):
+                    continue
+                hit2 = next((x for x in callee_names(ctx, h, c) if x in wanted), None)
+                if hit2 is None or not c.args or not isinstance(c.args[0], ast.Name) or c.args[0].id not in hparams:
+                    continue
+                j = hparams.index(c.args[0].id)
+                rest = list(node.args[i + 1 :])
+                if j < len(rest):
+                    return hit2, [rest[j]]
     return None
 
 
 def live_moved(ctx: Ctx, chk) -> None:
     rule = "LIVE-MOVED"
-    chk.rule(rule, "no file-system operation of the persistence moves, removes or truncates the live file itself (os.replace / rename with the live path as *source*, remove / unlink / truncate of it - called directly or handed to an executor): between that operation and the completion of the new file the registry exists under no name that load() reads, so a crash (or a failing open) there loses it")
+    chk.rule(rule, "no file-system operation of the persistence moves, removes or truncates the live file itself (os.replace / rename with the live path as *source*, remove / unlink / truncate of it, chmod / chown of it - called directly, handed to an executor, or done by a helper that is handed the path): between that operation and the completion of the new file the registry exists under no name that load() reads, so a crash (or a failing open) there loses it")
     pers = ctx.cls(PERS)
     n = 0
     seen: set = set()
@@ -130,7 +150,7 @@ def live_moved(ctx: Ctx, chk) -> None:
             for node in ctx.own_nodes(f):
                 if not isinstance(node, ast.Call) or id(node) in seen:
                     continue
-                got = _callable_and_args(ctx, f, node, REPLACERS + REMOVERS)
+                got = _callable_and_args(ctx, f, node, REPLACERS + REMOVERS + RESTATERS)
                 if got is None:
                     continue
                 seen.add(id(node))
@@ -139,7 +159,9 @@ def live_moved(ctx: Ctx, chk) -> None:
                 full, args = got
                 victim = cn.canon(args[0]) if args else "?"
                 key = f"{f0.fq}::{full}({victim})"
-                if victim in ("self.path", "path or self.path"):
+                if victim in ("self.path", "path or self.path") and full in RESTATERS:
+                    chk.refute(rule, key, f"`{norm(node)[:90]}` changes the permissions / owner of the live file so that a save can go on: a file the save could not touch (read-only: every crash point left it intact) is now opened with truncation after all - a crash in that retried save destroys a registry that was safe before", ctx.loc(f, node))
+                elif victim in ("self.path", "path or self.path"):
                     what = "moves the live file away" if full in REPLACERS else "removes / truncates the live file"
                     chk.refute(rule, key, f"`{norm(node)[:90]}` {what}: from here until the new file is completely written the registry is not under the path load() reads - a crash or a failing open in between leaves no file (load() then starts with an empty registry and the next save overwrites the copy)", ctx.loc(f, node))
                 else:
